@@ -488,6 +488,14 @@ func (n *VNode2) VReceipts(z int, blk *types.WorkObject) types.Receipts {
 	return n.Zone[z].hc.bc.processor.GetReceiptsByHash(blk.Hash())
 }
 
+// VCurrent: hash of the current header of the chain of context ctx a block of zone z belongs to.
+func (n *VNode2) VCurrent(z, ctx int) common.Hash { return n.chain(z, ctx).hc.CurrentHeader().Hash() }
+
+// VCanonical: is blk the canonical block at its height in the chain of context ctx?
+func (n *VNode2) VCanonical(z, ctx int, blk *types.WorkObject) bool {
+	return rawdb.ReadCanonicalHash(n.chain(z, ctx).sliceDb, blk.NumberU64(ctx)) == blk.Hash()
+}
+
 // V2Regime: the controller-off regime (ControllerKickInBlock = never; mainnet runs in it for its
 // first 262000 prime blocks). Needed because after the kick-in block prime asks for the stored
 // exchange rate of the block's ZONE parent through subInterface[0] only ("This only works with first
